@@ -264,3 +264,163 @@ async fn pooled_transaction_whose_input_expires_leaves_the_pool() {
         }
     }
 }
+
+/// C14: a ticket transaction is filed outside the reservation index: it never spends what a pooled transaction may spend
+#[tokio::test]
+#[serial_test::serial]
+async fn golden_ticket_transaction_never_spends_what_a_pooled_transaction_spends() {
+    #[allow(unused_imports)] use std::ops::Deref;
+    #[allow(unused_imports)] use crate::core::consensus::wallet::Wallet;
+    #[allow(unused_imports)] use crate::core::util::test::test_manager::test::TestManager;
+    #[allow(unused_imports)] use crate::core::consensus::transaction::Transaction;
+    #[allow(unused_imports)] use crate::core::consensus::block::Block;
+    #[allow(unused_imports)] use crate::core::consensus::golden_ticket::GoldenTicket;
+    #[allow(unused_imports)] use crate::core::util::crypto::hash;
+    #[allow(unused_imports)] use crate::core::consensus::mempool::Mempool;
+    use crate::core::consensus::slip::Slip;
+    use crate::core::util::crypto::generate_keys;
+
+    // block 1 issues 5_000_000 to a peer's key and 100_000_000 to the node
+    let (peer_public_key, peer_private_key) = generate_keys();
+    let mut t = TestManager::default();
+    let mut issued = Slip::default();
+    issued.public_key = peer_public_key;
+    issued.amount = 5_000_000;
+    t.initialize_from_slips_and_value(vec![issued], 100_000_000)
+        .await;
+
+    let configs = t.config_lock.read().await;
+    let blockchain = t.blockchain_lock.read().await;
+    let mut mempool = t.mempool_lock.write().await;
+    let node_public_key = t.wallet_lock.read().await.public_key;
+    let tip = blockchain.get_latest_block().unwrap();
+    assert_eq!(tip.id, 1);
+
+    let output = blockchain
+        .utxoset
+        .iter()
+        .filter_map(|(key, spendable)| {
+            let slip = Slip::parse_slip_from_utxokey(key).ok()?;
+            (*spendable && slip.public_key == peer_public_key && slip.amount > 0).then_some(slip)
+        })
+        .next()
+        .expect("setup: the peer owns an unspent output");
+    assert_eq!(output.amount, 5_000_000);
+
+    // what the node does with a transaction a peer sends: VerificationThread::verify_tx, then
+    // ConsensusThread (golden tickets -> Mempool::add_golden_ticket, the rest -> add_transaction_if_validates)
+    let pay_to_self = |timestamp: Timestamp| {
+        let mut tx = Transaction::default();
+        tx.timestamp = timestamp;
+        tx.add_from_slip(output.clone());
+        tx.add_to_slip(Slip {
+            public_key: peer_public_key,
+            amount: output.amount,
+            ..Default::default()
+        });
+        tx.sign(&peer_private_key);
+        tx.generate(&node_public_key, 0, 0);
+        tx
+    };
+
+    // the peer's payment spending the output is pooled and the output reserved
+    let payment = pay_to_self(tip.timestamp + 1);
+    assert!(
+        !payment.is_block_generated_type()
+            && payment.validate(&blockchain.utxoset, &blockchain, true)
+    );
+    mempool
+        .add_transaction_if_validates(payment.clone(), &blockchain)
+        .await;
+    assert_eq!(mempool.transactions.len(), 1);
+    assert!(mempool.utxo_map.contains_key(&output.utxoset_key));
+
+    // control: a second payment spending the same output validates against the ledger, and the pool refuses it
+    let second_payment = pay_to_self(tip.timestamp + 2);
+    assert_ne!(second_payment.signature, payment.signature);
+    assert!(second_payment.validate(&blockchain.utxoset, &blockchain, true));
+    mempool
+        .add_transaction_if_validates(second_payment.clone(), &blockchain)
+        .await;
+    assert_eq!(
+        mempool.transactions.len(),
+        1,
+        "control: the pool refuses a second payment that spends a reserved output"
+    );
+    let before = mempool
+        .can_bundle_block(
+            &blockchain,
+            tip.timestamp + 120_000,
+            &None,
+            configs.deref(),
+            &node_public_key,
+        )
+        .await;
+    assert!(
+        before.is_some(),
+        "control: the pool can be bundled before the ticket arrives"
+    );
+
+    // the peer's golden ticket transaction spends the same output (the tip's difficulty is 0: every ticket solves it)
+    let ticket = GoldenTicket::create(tip.hash, hash(&[7u8]), peer_public_key);
+    assert!(ticket.validate(tip.difficulty));
+    let mut ticket_tx =
+        Wallet::create_golden_ticket_transaction(ticket, &peer_public_key, &peer_private_key)
+            .await;
+    ticket_tx.from = vec![output.clone()];
+    ticket_tx.to = vec![Slip {
+        public_key: peer_public_key,
+        amount: output.amount,
+        ..Default::default()
+    }];
+    ticket_tx.sign(&peer_private_key);
+    ticket_tx.generate(&node_public_key, 0, 0);
+    assert!(
+        !ticket_tx.is_block_generated_type()
+            && ticket_tx.validate(&blockchain.utxoset, &blockchain, true),
+        "setup: the verification thread passes the golden ticket transaction on"
+    );
+    mempool.add_golden_ticket(ticket_tx.clone()).await;
+
+    let spenders = mempool
+        .transactions
+        .values()
+        .chain(mempool.golden_tickets.values().map(|(tx, _)| tx))
+        .filter(|tx| {
+            tx.from
+                .iter()
+                .any(|input| input.utxoset_key == output.utxoset_key)
+        })
+        .count();
+
+    // ConsensusThread::bundle_block: the ticket filed under the tip goes into the block
+    let filed = mempool
+        .golden_tickets
+        .get(&blockchain.get_latest_block_hash())
+        .map(|(tx, _)| tx.clone());
+    // (on the repaired tree the ticket transaction is not filed at all)
+    let _ = mempool
+        .can_bundle_block(
+            &blockchain,
+            tip.timestamp + 120_000,
+            &filed,
+            configs.deref(),
+            &node_public_key,
+        )
+        .await;
+    let bundled = mempool
+        .bundle_block(
+            &blockchain,
+            tip.timestamp + 120_000,
+            filed,
+            configs.deref(),
+            &t.storage,
+        )
+        .await;
+
+    if !(spenders <= 1) { witness(format!("the mempool holds {} transactions that spend the peer's output of 5000000 (block 1): the payment in \
+         Mempool::transactions and a golden ticket transaction in Mempool::golden_tickets, which \
+         Mempool::add_golden_ticket files without looking at the reserved inputs; bundling the two yields a block: {} \
+         (Block::create finds the double spend), and so will every attempt while block 1 is the tip, with {} \
+         transaction waiting in the pool", spenders, bundled.is_some(), mempool.transactions.len())); }
+}
